@@ -584,4 +584,20 @@ func (r *runner) witnesses() {
 	// D2 (known finding): a tracked table with an ignored name is modified, commit -A skips it.
 	// (The former D1 witness -- a? ignored, a% not ignored, table ab -- is a corpus case now.)
 	r.runCase(kase{Kind: "sql", Prog: []sqlOp{{Op: "create", T: "ab"}, {Op: "commitA"}, {Op: "ignore", T: "ab", Flag: true}, {Op: "modify", T: "ab"}, {Op: "commitA"}}})
+	// fixed RENAME programs for the rename-aware part of the model (old/new name ignored or not,
+	// add -A, commit -A, clean, clean -x after a rename of a tracked table)
+	base := []sqlOp{{Op: "create", T: "aa"}, {Op: "create", T: "ab"}, {Op: "commitA"}}
+	for _, tail := range [][]sqlOp{
+		{{Op: "rename", T: "aa", U: "bb"}, {Op: "addall"}, {Op: "commitA"}},
+		{{Op: "ignore", T: "bb", Flag: true}, {Op: "rename", T: "aa", U: "bb"}, {Op: "addall"}, {Op: "commitA"}, {Op: "clean"}, {Op: "cleanx"}},
+		{{Op: "ignore", T: "aa", Flag: true}, {Op: "rename", T: "aa", U: "bb"}, {Op: "addall"}, {Op: "commitA"}},
+		{{Op: "ignore", T: "a?", Flag: true}, {Op: "ignore", T: "b?", Flag: true}, {Op: "rename", T: "aa", U: "bb"}, {Op: "commitA"}, {Op: "addforce"}},
+		{{Op: "rename", T: "aa", U: "bb"}, {Op: "clean"}, {Op: "commitA"}},
+		{{Op: "rename", T: "aa", U: "bb"}, {Op: "modify", T: "bb"}, {Op: "add", T: "aa"}, {Op: "add", T: "bb"}, {Op: "commitA"}},
+		{{Op: "rename", T: "aa", U: "bb"}, {Op: "modify", T: "ab"}, {Op: "cleant", T: "bb"}, {Op: "addall"}},
+		{{Op: "rename", T: "aa", U: "bb"}, {Op: "rename", T: "ab", U: "aa"}, {Op: "addall"}, {Op: "cleanx"}, {Op: "commitA"}},
+		{{Op: "rename", T: "aa", U: "bb"}, {Op: "create", T: "aa"}, {Op: "addall"}},
+	} {
+		r.runCase(kase{Kind: "sql", Prog: append(append([]sqlOp{}, base...), tail...)})
+	}
 }
